@@ -65,11 +65,13 @@ DefinedBy(cs, g) ==   \* values the graph g itself defines (not recursive)
     \cup UNION {RangeS(cs.s.nOut[cs.s.gNodes[g][x]]) : x \in DOMAIN cs.s.gNodes[g]}
 
 \* clone one node of graph g into acc; `subs` = ids of the already cloned graph attributes
-CloneNode(acc, n, subs, allow) ==
+\* vmap0 = the value map BEFORE the graphs attached to n were cloned: the cloner resolves a node's inputs first
+CloneNode(acc, n, subs, allow, vmap0) ==
   LET cs0 == acc.cs
       ins == cs0.s.nIn[n]
-      outer == {x \in DOMAIN ins : ins[x] # 0 /\ acc.vmap[ins[x]] = 0}
-      newins == [x \in DOMAIN ins |-> IF ins[x] = 0 THEN 0 ELSE IF acc.vmap[ins[x]] # 0 THEN acc.vmap[ins[x]] ELSE ins[x]]
+      mapped(v) == IF v <= Len(vmap0) THEN vmap0[v] ELSE 0
+      outer == {x \in DOMAIN ins : ins[x] # 0 /\ mapped(ins[x]) = 0}
+      newins == [x \in DOMAIN ins |-> IF ins[x] = 0 THEN 0 ELSE IF mapped(ins[x]) # 0 THEN mapped(ins[x]) ELSE ins[x]]
       k == Len(cs0.s.nOut[n])
       nv == Len(cs0.s.vProd)
       nn == Len(cs0.s.nIn)
@@ -118,7 +120,7 @@ CloneInto(acc0, g, allow, depth) ==
                                     [a EXCEPT !.subs = <<>>], cs0.sub[n])
                       ELSE [a EXCEPT !.subs = <<>>]
              IN IF b.err # "" THEN b
-                ELSE LET c == CloneNode(b, n, b.subs, allow)
+                ELSE LET c == CloneNode(b, n, b.subs, allow, a.vmap)
                      IN [c EXCEPT !.nodes = Append(a.nodes, c.last)]
       a3 == FoldLeft(step, [a2 EXCEPT !.nodes = <<>>], cs0.s.gNodes[g])
   IN IF a3.err # "" THEN a3
@@ -152,6 +154,10 @@ CloneGraph(cs, g, allow) ==
 \* ---- attribute-level edits: each touches exactly one object --------------------------------------
 AttachSub(cs, n, g) == COk([cs EXCEPT !.sub[n] = Append(@, g)])
 SetType(cs, v, t) == COk([cs EXCEPT !.ty[v] = t])
+\* Value.dtype = t : a recursive type ("SEQ:<elem>") keeps its structure, the innermost element type changes;
+\* without a type a tensor type is created
+IsSeqTok(t) == Len(t) > 4 /\ SubSeq(t, 1, 4) = "SEQ:"
+SetDtype(cs, v, t) == COk([cs EXCEPT !.ty[v] = IF IsSeqTok(@) THEN "SEQ:" \o t ELSE t])
 SetShape(cs, v, dims) == COk([cs EXCEPT !.sh[v] = dims])
 SetDim(cs, v, i, d) ==
   IF cs.sh[v] = NoShape THEN CRej(cs, "no-shape")
@@ -169,7 +175,7 @@ CApply(cs, c) ==
   CASE c.op = "Clone"        -> CloneGraph(cs, c.g, c.flag)
     [] c.op = "AttachSub"    -> AttachSub(cs, c.n, c.g)
     [] c.op = "SetType"      -> SetType(cs, c.v, c.name)
-    [] c.op = "SetDtype"     -> SetType(cs, c.v, c.name)
+    [] c.op = "SetDtype"     -> SetDtype(cs, c.v, c.name)
     [] c.op = "SetShape"     -> SetShape(cs, c.v, c.vs)
     [] c.op = "SetDim"       -> SetDim(cs, c.v, c.i, c.j)
     [] c.op = "MetaPut"      -> MetaPut(cs, c.v, c.name)
